@@ -14,8 +14,10 @@ EXPIRIES = [(2, 0, 0), (0, -5, 0), (0, 0, 0), (0, 0, 1), (1, 0, 0), (1, 0, 10000
 
 
 class Gen:
-    def __init__(self, rnd, nfd=3, ntm=3, ntk=3, nev=2, nraw=1, kinds=None):
+    def __init__(self, rnd, nfd=3, ntm=3, ntk=3, nev=2, nraw=1, kinds=None, modes=None):
+        ntm = 8 if modes and "heap" in modes else ntm
         self.r = rnd
+        self.modes = modes
         self.n = {"fd": nfd, "tm": ntm, "tk": ntk, "ev": nev, "raw": nraw}
         if kinds is not None:
             for k in self.n:
@@ -34,6 +36,10 @@ class Gen:
             k = r.choice(kinds)
             o = self.pick_obj(k)
             if k == "fd":
+                if r.random() < 0.2:
+                    # register_try, often without any handler yet (they are installed later)
+                    hs = (0, 0, 0) if r.random() < 0.5 else (r.choice([0, 1]), r.choice([0, 1]), 0)
+                    return "fd_try %d %d %d %d" % ((o,) + hs)
                 return "fd_reg %d %d %d %d" % (o, r.choice([0, 1, 1, 2]), r.choice([0, 0, 1, 2]), r.choice([0, 0, 1, 2]))
             if k == "tm":
                 return "tm_reg %d %d %d %d" % ((o,) + r.choice(EXPIRIES))
@@ -47,6 +53,8 @@ class Gen:
             if c < 0.22:
                 return "fd_reg %d %d %d %d" % (o, r.choice([0, 1, 1, 2]), r.choice([0, 0, 1, 2]), r.choice([0, 0, 1, 2]))
             if c < 0.30:
+                if r.random() < 0.4:
+                    return "fd_try %d 0 0 0" % o
                 return "fd_try %d %d %d %d" % (o, r.choice([0, 1, 2]), r.choice([0, 1]), r.choice([0, 1]))
             if c < 0.52:
                 return "fd_unreg %d" % o
@@ -55,7 +63,7 @@ class Gen:
             if c < 0.84:
                 return "fd_cookie %d %d" % (o, r.randint(0, 1))
             if c < 0.88:
-                return "fd_newos %d" % o
+                return "%s %d" % (r.choice(["fd_newos", "fd_swapos"]), o)
             if c < 0.95:
                 return "drain %d" % o
             return r.choice(["rd %d 1", "wr %d 3", "fill %d"]) % o
@@ -121,8 +129,9 @@ class Gen:
     def script(self, sid, method, faults=(), maxwait=14, mode=None):
         r = self.r
         if mode is None:
-            mode = r.choice(["random", "random", "multiready", "multiready", "churn", "timers", "tasks", "events"])
-        L = ["B %s method=%s seed=%d maxwait=%d reuse=%d" % (sid, method, r.randint(1, 1 << 30), maxwait, r.randint(0, 1))]
+            mode = r.choice(self.modes or ["random", "random", "multiready", "multiready", "churn", "regchurn", "timers", "timers", "tasks", "events"])
+        L = ["B %s method=%s seed=%d maxwait=%d reuse=%d keep=%d" % (sid, method, r.randint(1, 1 << 30), maxwait, r.randint(0, 1),
+                                                                         1 if r.random() < 0.35 else 0)]
         ptypes = {}
         for k in ("fd", "tm", "tk", "ev", "raw"):
             for i in range(1, self.n[k] + 1):
@@ -165,6 +174,55 @@ class Gen:
                     for _ in range(r.randint(0, 3)):
                         g = self.pick_obj("fd")
                         R.append("R fd %d %d %d fd_set %d %d %d" % (f, b, r.choice([1, 2, 3, 0]), g, r.randint(1, 3), r.choice([0, 0, 1, 2])))
+        elif mode == "regchurn" and self.n["fd"] >= 2:
+            # the back end's per-descriptor bookkeeping (poll array slots, epoll
+            # notify list) under register / unregister / re-register churn, with
+            # the descriptors readable so that every slot mix-up shows
+            nf = self.n["fd"]
+            for f in range(1, nf + 1):
+                L.append("S fd_reg %d 1 0 0" % f)
+            for _ in range(r.randint(3, 9)):
+                f = r.randint(1, nf)
+                c = r.random()
+                if c < 0.45:
+                    L.append("S fd_unreg %d" % f)
+                elif c < 0.8:
+                    if r.random() < 0.4:
+                        L.append("S fd_unreg %d" % f)
+                        if r.random() < 0.6:
+                            L.append("S %s %d" % (r.choice(["fd_newos", "fd_swapos", "fd_swapos"]), f))
+                    L.append("S fd_reg %d %d %d 0" % (f, r.choice([1, 1, 2]), r.choice([0, 0, 1])))
+                else:
+                    L.append("S fd_set %d %d %d" % (f, r.randint(1, 2), r.choice([0, 1, 2])))
+            for f in range(1, nf + 1):
+                if ptypes[f] != "pw" and r.random() < 0.7:
+                    L.append("%s pwrite %d 2" % (r.choice(["S", "E 1", "E 2"]), f))
+                R.append("R fd %d 1 %d drain %d" % (f, r.choice([1, 2, 3]), f))
+                if r.random() < 0.5:
+                    g = r.randint(1, nf)
+                    R.append("R fd %d 1 %d fd_unreg %d" % (f, r.choice([1, 2]), g))
+                    if r.random() < 0.6:
+                        R.append("R fd %d 1 %d fd_reg %d 1 0 0" % (f, r.choice([1, 2]), g))
+        elif mode == "heap" and self.n["tm"] >= 6:
+            # a populated timer heap: interior / last / root removals, then time passes
+            n = self.n["tm"]
+            exps = r.sample(range(1, 40), n)
+            if r.random() < 0.3:
+                exps[r.randrange(n)] = exps[r.randrange(n)]      # an equal pair
+            for t in range(1, n + 1):
+                L.append("S tm_reg %d 1 0 %d" % (t, exps[t - 1] * 5000000))
+            for _ in range(r.randint(1, 3)):
+                t = r.randint(1, n)
+                L.append("S tm_unreg %d" % t)
+                if r.random() < 0.4:
+                    L.append("S tm_reg %d 1 0 %d" % (t, r.randint(1, 40) * 5000000))
+            for t in range(1, n + 1):
+                if r.random() < 0.3:
+                    u = r.randint(1, n)
+                    R.append("R tm %d 0 1 tm_unreg %d" % (t, u))
+                    if r.random() < 0.5:
+                        R.append("R tm %d 0 1 tm_reg %d 1 0 %d" % (t, u, r.randint(1, 30) * 5000000))
+            maxwait = 30
         elif mode == "timers" and self.n["tm"]:
             base = r.choice(EXPIRIES)
             for t in range(1, self.n["tm"] + 1):
@@ -181,9 +239,22 @@ class Gen:
                 L.append("S fd_newos %d" % f)
                 L.append("S fd_reg %d 1 0 0" % f)
                 R.append("R fd %d 1 0 drain %d" % (f, f))
-                maxwait = 24
-                for q in range(1, 14):
+                maxwait = 30
+                for q in range(1, 18):
                     L.append("E %d pwrite %d 1" % (q, f))
+                # after the repeated-deadline optimisation engaged: an earlier timer
+                # appears, an equal one, or the soonest one goes away
+                for _ in range(r.randint(0, 2)):
+                    t = self.pick_obj("tm")
+                    k = r.randint(5, 10)
+                    c = r.random()
+                    if c < 0.6:
+                        R.append("R fd %d 1 %d tm_reg %d 1 0 %d" % (f, k, t, r.choice([1, 1000000, 50000000, 1500000])))
+                        R.append("R fd %d 1 %d tm_unreg %d" % (f, k - 1, t))
+                    elif c < 0.8:
+                        R.append("R fd %d 1 %d tm_unreg %d" % (f, k, t))
+                    else:
+                        R.append("R fd %d 1 %d tm_reg %d 1 %d 0" % (f, k, t, r.choice([2, 7])))
         elif mode == "tasks" and self.n["tk"]:
             for k in range(1, self.n["tk"] + 1):
                 if r.random() < 0.8:
@@ -205,6 +276,21 @@ class Gen:
                         if r.random() < 0.6:
                             for op in self.victim_ops(("ev", "raw") if self.n["raw"] and self.n["ev"] else ("ev",) if self.n["ev"] else ("raw",)):
                                 R.append("R %s %d 0 %d %s" % (k, o, occ, op))
+        if self.n["fd"] and r.random() < 0.2:
+            # a registration attempt that fails (closed descriptor), then the same
+            # object is registered on a fresh descriptor with the same handlers
+            f = self.pick_obj("fd")
+            hs = (r.choice([1, 2]), r.choice([0, 0, 1]), r.choice([0, 0, 1]))
+            where = "S" if r.random() < 0.6 or not self.n["tk"] else None
+            seq = ["fd_unreg %d" % f, "fd_closeos %d" % f, "fd_try %d %d %d %d" % ((f,) + hs), "fd_newos %d" % f,
+                   "fd_reg %d %d %d %d" % ((f,) + hs)]
+            if where:
+                L += ["S " + x for x in seq]
+                if ptypes.get(f) != "pw":
+                    L.append("S pwrite %d 3" % f)
+            else:
+                L.append("S tk_reg 1")
+                R += ["R tk 1 0 1 " + x for x in seq]
         for _ in range(r.randint(1, 7) if mode == "random" else r.randint(0, 3)):
             L.append("S " + self.api_op(setup=True))
         if r.random() < 0.15:
@@ -240,6 +326,13 @@ class Gen:
                         L.append("E %d pclose %d" % (q, f))
                     else:
                         L.append("E %d pshut %d" % (q, f))
+        if r.random() < 0.25:
+            # the wait is interrupted by a signal after some time has passed
+            L[0] += " sigsim=1"
+            for q in r.sample(range(1, 9), r.randint(1, 3)):
+                sec, ns = r.choice([(0, 300000), (0, 500000000), (1, 0), (0, 1)])
+                L.append("E %d advance %d %d" % (q, sec, ns))
+                L.append("E %d intr 0" % q)
         for f in faults:
             L.append("F " + f)
         L[0] = L[0].replace("maxwait=14", "maxwait=%d" % maxwait)
@@ -247,12 +340,12 @@ class Gen:
         return "\n".join(L) + "\n"
 
 
-def gen_scripts(seed, count, methods=METHODS, kinds=None, faultgen=None, prefix="r"):
+def gen_scripts(seed, count, methods=METHODS, kinds=None, faultgen=None, prefix="r", modes=None, nfd=3):
     """count scripts, each instantiated for every method (same program)."""
     out = []
     for i in range(count):
         rs = random.Random((seed << 20) + i)
-        g = Gen(rs, kinds=kinds)
+        g = Gen(rs, kinds=kinds, modes=modes, nfd=nfd)
         st = rs.getstate()
         for m in methods:
             rs.setstate(st)
